@@ -3,10 +3,14 @@ use crate::Ctx;
 
 pub mod c01;
 pub mod c02;
+pub mod c03;
+pub mod c05;
+pub mod c06;
 pub mod c04;
 pub mod c08;
 pub mod c09;
 pub mod c13;
+pub mod c14;
 
 pub type MonFn = fn(&mut Ctx);
 
@@ -23,6 +27,13 @@ pub fn registry() -> Vec<(&'static str, &'static str, MonFn)> {
         ("c04_rand", "C04", c04::random as MonFn),
         ("c09_exh", "C09", c09::exhaustive as MonFn),
         ("c09_rand", "C09", c09::random as MonFn),
+        ("c03_hist", "C03", c03::histories as MonFn),
+        ("c05_hist", "C05", c05::histories as MonFn),
+        ("c05_bg", "C05", c05::background_gc as MonFn),
+        ("c05_probe", "C05", c05::probe as MonFn),
+        ("c06_diff", "C06", c06::differential as MonFn),
+        ("c14_sweep", "C14", c14::sweep as MonFn),
+        ("c14_aborts", "C14", c14::aborts as MonFn),
         ("c02_pairs", "C02", c02::pairs as MonFn),
     ]
 }
